@@ -309,6 +309,22 @@ Theorem C07_from_samples_order_independent_nested : forall o n vs vs' fs1 fs2,
   from_samples o [] vs = Ok fs1 -> from_samples o [] vs' = Ok fs2 -> sdeq (SStruct fs1) (SStruct fs2).
 Proof. exact from_samples_order_independent. Qed.
 
+(* ---- translator tie for the shape transitions ----
+   The arms of `match self` in ensure_struct / ensure_tuple / ensure_union / ensure_list / ensure_map are regenerated from /repo's
+   tracer.rs on every run (Gen/TracerTables.v: pattern and action of every arm, depth limit first) and compared with the table the
+   model was written against; the model's ensure_* are that table, read as equations.  C07_success_puts_in_class rests on exactly this
+   bookkeeping (a position is upgraded only from Unknown / a null-only primitive, keeps its kind, refuses every other kind). *)
+Theorem C07_shape_transitions_match_source :
+  ensure_arms_ok = true /\
+  (forall d t, ensure_list d t = if Nat.leb max_depth d then Err else if upgradable t then Ok (TList (t_nullable t) (TUnknown false)) else match t with TList _ _ => Ok t | _ => Err end) /\
+  (forall d t, ensure_map d t = if Nat.leb max_depth d then Err else if upgradable t then Ok (TMap (t_nullable t) (TUnknown false) (TUnknown false)) else match t with TMap _ _ _ => Ok t | _ => Err end) /\
+  (forall d m t, ensure_struct d m t = if Nat.leb max_depth d then Err else if upgradable t then Ok (TStruct (t_nullable t) m 0 []) else match t with TStruct n m0 s fs => Ok (TStruct n (m0 || m) s fs) | _ => Err end) /\
+  (forall d k t, ensure_tuple d k t = if Nat.leb max_depth d then Err else if upgradable t then Ok (TTuple (t_nullable t) (repeat (TUnknown false) k)) else match t with TTuple nl fs => Ok (TTuple nl (arity_adjust fs k)) | _ => Err end) /\
+  (forall d t, ensure_union d t = if Nat.leb max_depth d then Err else if upgradable t then Ok (TUnion (t_nullable t) []) else match t with TUnion _ _ => Ok t | _ => Err end).
+Proof.
+  split; [vm_compute; reflexivity|]. split; [exact ensure_list_reads|]. split; [exact ensure_map_reads|]. split; [exact ensure_struct_reads|]. split; [exact ensure_tuple_reads|exact ensure_union_reads].
+Qed.
+
 (* ---- C07 at full strength on the tracer model ----
    Every collection that traces is in the class Hom: the tracer refuses a position at which two samples have different shapes (other
    than the mixtures inside the class, and nulls anywhere).  `bound o n v` says that v nests at most n deep and that no record inside v
@@ -350,6 +366,7 @@ Example C07_nested_schema_example :
                   map sf_name fs1 = [b "id"; b "tags"; b "pos"; b "items"] /\ map sf_name fs2 = [b "tags"; b "id"; b "items"; b "pos"].
 Proof. do 2 eexists. vm_compute. repeat split; reflexivity. Qed.
 
+Print Assumptions C07_shape_transitions_match_source.
 Print Assumptions C07_success_puts_in_class.
 Print Assumptions C07_full_order.
 Print Assumptions C07_full_schema.
